@@ -73,3 +73,11 @@ package publicrpc
 //@   props C12
 //@   ensures [as-passed] s != nil && s.db == d && s.gst == gst && s.governanceChainId == governanceChainId && s.governanceEmitter == governanceEmitterAddress
 //@   modifies fresh PublicrpcServer.*
+
+// the guardian set query reads the node's current set and leaves it alone: the set object is
+// shared with the processor (GuardianSetState.Get returns the processor's own pointer)
+//@ func (s *PublicrpcServer) GetCurrentGuardianSet(ctx context.Context, req *publicrpcv1.GetCurrentGuardianSetRequest) (resp *publicrpcv1.GetCurrentGuardianSetResponse, err error)
+//@   props C01 C03
+//@   requires s != nil && s.gst != nil
+//@   ensures [answer-or-error] (err == nil) == (resp != nil)
+//@   modifies fresh publicrpcv1.GetCurrentGuardianSetResponse.*, fresh publicrpcv1.GuardianSet.*
